@@ -146,6 +146,24 @@ def enforce_other() -> dict:
             why = well_formed(cls, inst)
             if why:
                 bad.append(f"{cls.__name__}({v!r}): {why}")
+        if t == "Time":
+            # datetime values: "a well-formed encoding OF THAT VALUE" - the data must be the seconds since 1900-01-01 UTC of the
+            # instant meant (naive = UTC by the library's convention), whatever the tzinfo; or the constructor raises
+            tz = datetime.timezone
+            td = datetime.timedelta
+            base = datetime.datetime(2021, 3, 4, 12, 0, 0)
+            cases = [base, datetime.datetime(1900, 1, 1), datetime.datetime(2036, 2, 7, 6, 28, 15), base.replace(microsecond=999999)]
+            cases += [base.replace(tzinfo=tz.utc)] + [base.replace(tzinfo=tz(td(minutes=m))) for m in (120, -330, 345, 1, -1, 14 * 60, -12 * 60)]
+            for v in cases:
+                try:
+                    inst = cls(v)
+                except BaseException:     # noqa
+                    continue
+                instant = v if v.tzinfo is None else v.astimezone(tz.utc).replace(tzinfo=None)
+                diff = instant - datetime.datetime(1900, 1, 1)
+                want = (diff.days * 86400 + diff.seconds).to_bytes(4, "big")
+                if inst.data != want:
+                    bad.append(f"{cls.__name__}({v!r}): data {inst.data.hex()} is not the instant ({want.hex()})")
         if t == "DiameterURI":
             for u in uri_bad:
                 for arg in (u, u.encode()):
